@@ -45,16 +45,24 @@ impl Slot {
 
     /// Generates a named slot like `$xyz`
     pub fn named(s: &str) -> Slot {
-        if let Ok(x) = s.parse::<u32>() {
-            return Slot(x * 4); // numeric
+        // A numeral that does not fit the numeric encoding is an ordinary (interned) name.
+        if let Some(out) = s.parse::<u32>().ok().and_then(|x| x.checked_mul(4)) {
+            return Slot(out); // numeric
         }
 
         SLOT_TABLE.with_borrow_mut(|tab| {
             if s.starts_with("f") {
-                if let Ok(x) = s[1..].parse::<u32>() {
-                    let out = x * 4 + 1;
+                // `f<n>` is a fresh slot only if both its encoding and the bumped counter fit into u32;
+                // otherwise it is an ordinary (interned) name.
+                let fresh = s[1..]
+                    .parse::<u32>()
+                    .ok()
+                    .and_then(|x| x.checked_mul(4))
+                    .and_then(|x| x.checked_add(1))
+                    .and_then(|out| out.checked_add(4).map(|next| (out, next)));
+                if let Some((out, next)) = fresh {
                     if tab.fresh_idx <= out {
-                        tab.fresh_idx = out + 4;
+                        tab.fresh_idx = next;
                     }
                     return Slot(out); // fresh
                 }
